@@ -258,7 +258,10 @@ impl Searcher {
 
                     best_mv = line.first().copied();
 
-                    assert!(!line.is_empty());
+                    // No line means no legal moves: checkmate or stalemate at the root
+                    if line.is_empty() {
+                        break;
+                    }
 
                     // Make sure that the line we're returning is actually valid
                     debug_assert!({
@@ -289,19 +292,15 @@ impl Searcher {
                 }
                 Err(SearchInterrupt) => {
                     if let Some(x) = transpositions.find(game_state_hash) {
-                        if x.evaluation > best_eval {
+                        let line: Vec<Move> = transpositions
+                            .iter_moves(&hasher, &game_state, depth)
+                            .map(|r| r.0)
+                            .collect();
+
+                        if x.evaluation > best_eval && !line.is_empty() {
                             f(StatusEvent::BestMove {
                                 evaluation: x.evaluation,
-                                line: {
-                                    let line: Vec<Move> = transpositions
-                                        .iter_moves(&hasher, &game_state, depth)
-                                        .map(|r| r.0)
-                                        .collect();
-
-                                    assert!(!line.is_empty());
-
-                                    line
-                                },
+                                line,
                             });
                         }
                     }
